@@ -146,6 +146,9 @@ def check(case, ctx):
                     saw_refusal = True
                     ctx.cls("refused:other-descriptor")
                     continue
+                if k % 2 == 1:
+                    # records of one type often come from several sources: an equal descriptor OBJECT is created anew
+                    desc = RecordDescriptor(name, [tuple(f) for f in fields])
                 rec = desc(*[v for v, _ in vals], _generated=gen_ts)
                 representable = all(ok for _, ok in vals)
                 res = impl(w.write, rec)
